@@ -226,6 +226,7 @@ Theorem C14_retry_token_cids :
   oracles_correct prot_seal prot_open marshal unmarshal sealed ->
   forall k nonce a0 odcid rscid ts,
   length nonce = nonceLen ->
+  zlen odcid <= 20 -> zlen rscid <= 20 ->
   sealed k nonce (marshal (Rec true (encodeRemoteAddr a0) ts 0 odcid rscid)) ->
   decode K prot_open unmarshal k (newRetryToken (prot_seal k) marshal nonce a0 odcid rscid ts)
   = DTok (Tok true ts (encodeRemoteAddr a0) odcid rscid 0).
